@@ -165,3 +165,202 @@ def realise(w):
             markup.append(pool[i : i + b])
             i += b
     return "".join(plain), "".join(markup)
+
+
+# ---------------------------------------------------------------- the search pattern itself (regular-language clause)
+PARTIES = {"plaintiff": "Baz", "defendant": "Foo Bar"}
+
+
+def captured_pattern():
+    """run the real find_reference_citations_from_markup (interpreted) on a concrete document with a stub at
+    re.finditer that records the pattern and flags the code searches the markup with."""
+    import re
+
+    import eyecite.annotate as AN
+    import eyecite.find as F
+    import eyecite.models as M
+
+    eng = symex.Engine()
+    symex.ENGINE = eng
+    it = symex.Interp(eng)
+    it.native_keys_ok = True
+    got = []
+
+    def finditer(pattern, text, flags=0):
+        got.append((str(pattern), int(flags)))
+        return []
+
+    it.stubs[re.finditer] = finditer
+    plain = "Baz v. Foo Bar, 1 U.S. 1. Later Baz."
+    markup = "<em>Baz</em> v. Foo Bar, 1 U.S. 1. Later <i>Baz</i>."
+
+    class Doc:
+        pass
+
+    doc = Doc()
+    doc.plain_text, doc.markup_text = plain, markup
+    doc.plain_to_markup, doc.markup_to_plain = AN.SpanUpdater(plain, markup), AN.SpanUpdater(markup, plain)
+    s = plain.index("1 U.S. 1")
+    c = M.FullCaseCitation(M.CitationToken("1 U.S. 1", s, s + 8, groups={"volume": "1", "reporter": "U.S.", "page": "1"}), 0)
+    for k, v in PARTIES.items():
+        setattr(c.metadata, k, v)
+    outs = list(eng.explore(lambda: it.call(F.find_reference_citations_from_markup, (doc, [c]), {})))
+    return got, outs
+
+
+def captured_pincite_pattern():
+    """the pattern extract_pincited_reference_citations compiles for the same citation."""
+    import re
+
+    import eyecite.find as F
+    import eyecite.models as M
+
+    eng = symex.Engine()
+    symex.ENGINE = eng
+    it = symex.Interp(eng)
+    it.native_keys_ok = True
+    got = []
+
+    class P:
+        def finditer(self, text):
+            return []
+
+    def compile_(pattern, flags=0):
+        got.append((str(pattern), int(flags)))
+        return P()
+
+    it.stubs[re.compile] = compile_
+    plain = "Baz v. Foo Bar, 1 U.S. 1. Later Baz at 5."
+    s = plain.index("1 U.S. 1")
+    c = M.FullCaseCitation(M.CitationToken("1 U.S. 1", s, s + 8, groups={"volume": "1", "reporter": "U.S.", "page": "1"}), 0)
+    for k, v in PARTIES.items():
+        setattr(c.metadata, k, v)
+    outs = list(eng.explore(lambda: it.call(F.extract_pincited_reference_citations, (c, plain), {})))
+    return got, outs
+
+
+def pincite_pattern_clause(rep):
+    """every string the name-pincite pattern can match contains one of the citation's party names."""
+    import time
+
+    from vf import rex
+
+    got, outs = captured_pincite_pattern()
+    rep.sections["pincite_pattern"] = {"parties": PARTIES, "captured": got}
+    if len(got) != 1 or len(outs) != 1 or outs[0][0] != "ok":
+        rep.inconc(f"pincite pattern clause: expected one re.compile call, got {got} / {outs[:1]}")
+        return
+    pattern, flags = got[0]
+    t0 = time.time()
+    try:
+        # word-boundary assertions only restrict the pattern: dropping them enlarges the language, so an
+        # inclusion proved for the enlarged language holds for the pattern (a witness is replayed anyway)
+        import re._constants as sc
+
+        def drop_boundaries(seq):
+            keep = []
+            for op, av in seq:
+                if op == sc.AT and av in (sc.AT_BOUNDARY, sc.AT_NON_BOUNDARY):
+                    continue
+                if op == sc.SUBPATTERN:
+                    drop_boundaries(av[3])
+                elif op == sc.BRANCH:
+                    for alt in av[1]:
+                        drop_boundaries(alt)
+                elif op in (sc.MAX_REPEAT, sc.MIN_REPEAT):
+                    drop_boundaries(av[2])
+                keep.append((op, av))
+            seq[:] = keep
+
+        pp = rex.parse(pattern, flags)
+        drop_boundaries(pp)
+        R = rex.tr(pp, pp.state.flags)
+        spec = rex.translate(r"Foo Bar|Baz", 0)
+    except rex.Unsupported as ex:
+        rep.inconc(f"pincite pattern clause: pattern not translatable: {ex}")
+        return
+    full = z3.Full(rex.RS)
+    verdict, w = rex.solve_in(z3.Intersect(R, z3.Complement(z3.Concat(full, spec, full))), timeout_ms=120000, seed=common.seed())
+    rep.queries += 1
+    rep.solver_s += time.time() - t0
+    rep.sections["pincite_pattern"].update({"verdict": verdict, "seconds": round(time.time() - t0, 2)})
+    if verdict == "unsat":
+        rep.oblige(1)
+        return
+    rep.oblige(1, ok=False)
+    if verdict != "sat":
+        rep.inconc("pincite pattern clause: solver verdict unknown")
+        return
+    w = rex.z3_unescape(w)
+    from eyecite import get_citations
+    import eyecite.models as M
+    import re
+
+    doc = f"{PARTIES['plaintiff']} v. {PARTIES['defendant']}, 1 U.S. 1 (1999). Later {w} again."
+    rep.replays += 1
+    try:
+        cs = get_citations(doc)
+    except Exception as ex:
+        rep.inconc(f"pincite pattern clause: replay raised {ex!r}")
+        return
+    bad = [doc[r.span()[0] : r.span()[1]] for r in cs if isinstance(r, M.ReferenceCitation) and not re.search(r"Foo Bar|Baz", doc[r.span()[0] : r.span()[1]])]
+    if bad:
+        rep.violation(f"get_citations({doc!r}) returns reference citation(s) whose text {bad} contains no party name of the citation (pattern {pattern!r}, flags {flags})", {"kind": "text", "text": doc})
+    else:
+        rep.spurious += 1
+        rep.inconc(f"pincite pattern clause: witness {w!r} did not reproduce")
+
+
+def pattern_clause(rep):
+    """every string the markup search pattern can match contains, case-sensitively, one of the citation's
+    party names (its words separated by whitespace) - inclusion of regular languages, decided by z3."""
+    import time
+
+    from vf import rex
+
+    got, outs = captured_pattern()
+    rep.sections["markup_pattern"] = {"parties": PARTIES, "captured": got}
+    if len(got) != 1 or len(outs) != 1 or outs[0][0] != "ok":
+        rep.inconc(f"markup pattern clause: expected one re.finditer call on the concrete document, got {got} / {outs[:1]}")
+        return
+    pattern, flags = got[0]
+    t0 = time.time()
+    try:
+        R = rex.translate(pattern, flags)
+        spec = rex.translate(r"Foo\s+Bar|Baz", 0)
+    except rex.Unsupported as ex:
+        rep.inconc(f"markup pattern clause: pattern not translatable: {ex}")
+        return
+    full = z3.Full(rex.RS)
+    verdict, w = rex.solve_in(z3.Intersect(R, z3.Complement(z3.Concat(full, spec, full))), timeout_ms=120000, seed=common.seed())
+    rep.queries += 1
+    rep.solver_s += time.time() - t0
+    rep.sections["markup_pattern"].update({"verdict": verdict, "seconds": round(time.time() - t0, 2)})
+    if verdict == "unsat":
+        rep.oblige(1)
+        return
+    rep.oblige(1, ok=False)
+    if verdict != "sat":
+        rep.inconc("markup pattern clause: solver verdict unknown")
+        return
+    w = rex.z3_unescape(w)
+    # replay on the real code: a document whose markup contains the witness after the citation
+    from eyecite import clean_text, get_citations
+    import eyecite.models as M
+
+    doc = f"<p>{PARTIES['plaintiff']} v. {PARTIES['defendant']}, 1 U.S. 1 (1999). Later {w} again.</p>"
+    rep.replays += 1
+    try:
+        cs = get_citations(markup_text=doc, clean_steps=["html", "all_whitespace"])
+        plain = clean_text(doc, ["html", "all_whitespace"])
+    except Exception as ex:
+        rep.inconc(f"markup pattern clause: replay raised {ex!r}")
+        return
+    import re
+
+    bad = [plain[r.span()[0] : r.span()[1]] for r in cs if isinstance(r, M.ReferenceCitation) and not re.search(r"Foo\s+Bar|Baz", plain[r.span()[0] : r.span()[1]])]
+    if bad:
+        rep.violation(f"get_citations(markup_text={doc!r}) returns reference citation(s) whose text {bad} contains no party name of the citation (pattern {pattern!r}, flags {flags})", {"kind": "markup", "markup": doc})
+    else:
+        rep.spurious += 1
+        rep.inconc(f"markup pattern clause: witness {w!r} did not reproduce")
